@@ -137,7 +137,7 @@ func ptrTaint(c *core.Ctx) {
 		return
 	}
 	uf := ui.fn
-	an := c.Analyze(uf)
+	an := unfoldAnalysis(c, ui)
 	if problems(c, "ptr-taint", "hseq.unfold#recursive-call", an) {
 		return
 	}
